@@ -200,7 +200,11 @@ std::string judge(const Case& k, const coop::RunResult& r, bool& inconclusive, v
     long long effNps = k.maxNps > 0 ? k.maxNps : 0;
     if (k.limitStrength) { long long t = k.elo < 1350 ? 10000 : k.elo < 2100 ? 100000 : 750000; effNps = effNps > 0 ? std::min(effNps, t) : t; }
     const long long quantum = effNps > 0 ? (long long)(nbtc + gSlackNodes) * 1000000000LL / effNps + 1000000LL : 0;
-    const long long P = (long long)(nbtc + gSlackNodes) * k.nsPerNode + quantum + 1000000LL + 3 * k.clockCostNs; // + 1 ms clock granularity (+ clock reads in tb-stop mode)
+    // tb-stop mode: every clock read of the engine costs virtual time.  A generator that honours the stop performs at most
+    // 3 more reads; when generation had already finished, TBProbe::getSearchMoves probes the root and each legal root move
+    // once, two clock reads per probe, before the first iteration starts (no stop poll there, none is promised).
+    const long long costedReads = k.tbStop ? 3 + 2 * (1 + (long long)k.legalMoves) : 0;
+    const long long P = (long long)(nbtc + gSlackNodes) * k.nsPerNode + quantum + 1000000LL + costedReads * k.clockCostNs; // + 1 ms clock granularity
     // (1) limits handed to the search for this go (first report after the go) and by ponderhit
     const coop::LimitEvent* first = nullptr; const coop::LimitEvent* atHit = nullptr;
     for (auto& l : r.limits) {
